@@ -199,8 +199,18 @@ def Rep.isEmpty (r : Rep) : Bool :=
 /-- `XSequence::array` (sequence.rs:91-97) -/
 def Rep.mkArray (xs : List Val) : Rep := if xs.isEmpty then .empty else .array xs
 
-/-- `XSequence::slice` (sequence.rs:193-218).  `.ok none` = "the whole sequence, return the same object".
-After the fix the slice-of-slice arm only flattens when the shifted bounds still fit `usize`. -/
+/-- the last `match` of `XSequence::slice` (sequence.rs:210-217): a slice of a slice addresses the origin directly
+(after the fix: only when the shifted bounds still fit `usize`) -/
+def Rep.sliceOf (base : Rep) (start : Nat) (end2 : Option Nat) : Rep :=
+  match base with
+  | .slice origin oldStart _ =>
+      if decide (oldStart + start < USIZE) &&
+          (match end2 with | some e => decide (oldStart + e < USIZE) | none => true) then
+        .slice origin (oldStart + start) (end2.map (fun e => oldStart + e))
+      else .slice base start end2
+  | _ => .slice base start end2
+
+/-- `XSequence::slice` (sequence.rs:193-218).  `.ok none` = "the whole sequence, return the same object". -/
 def Rep.mkSlice (base : Rep) (start : Nat) (end_ : Option Nat) : Res (Option Rep) :=
   match base.len with
   | .panic m => .panic m
@@ -215,14 +225,7 @@ def Rep.mkSlice (base : Rep) (start : Nat) (end_ : Option Nat) : Res (Option Rep
     let emptyRes : Bool :=
       (match end2 with | some e => decide (start ≥ e) | none => false) ||
       (match len with | .fin n => decide (start ≥ n) | _ => false)
-    if emptyRes then .ok (some .empty) else
-    match base with
-    | .slice origin oldStart _ =>
-        if decide (oldStart + start < USIZE) &&
-            (match end2 with | some e => decide (oldStart + e < USIZE) | none => true) then
-          .ok (some (.slice origin (oldStart + start) (end2.map (fun e => oldStart + e))))
-        else .ok (some (.slice base start end2))
-    | _ => .ok (some (.slice base start end2))
+    if emptyRes then .ok (some .empty) else .ok (some (base.sliceOf start end2))
 
 /-- result of `XSequence::chain`: `Ok(Ok(new))`, `Ok(Err(&base0|&base1))`, `Err(msg)` -/
 inductive ChainR where
@@ -232,6 +235,16 @@ inductive ChainR where
   | err (msg : String)
   | panic (msg : String)
   deriving Repr, Inhabited
+
+/-- the four arms of `XSequence::chain` (sequence.rs:237-293): parts are spliced, midpoints of the right operand
+are shifted by the length of the left one -/
+def Rep.chainOf (a b : Rep) (len0 : Nat) : Rep :=
+  match a, b with
+  | .chain parts0 mids0, .chain parts1 mids1 =>
+      .chain (parts0 ++ parts1) (mids0 ++ [len0] ++ mids1.map (· + len0))
+  | .chain parts0 mids0, _ => .chain (parts0 ++ [b]) (mids0 ++ [len0])
+  | _, .chain parts1 mids1 => .chain (a :: parts1) (len0 :: mids1.map (· + len0))
+  | _, _ => .chain [a, b] [len0]
 
 /-- `XSequence::chain` (sequence.rs:221-298); after the fix the total length is checked against `usize` -/
 def Rep.mkChain (a b : Rep) : ChainR :=
@@ -249,12 +262,7 @@ def Rep.mkChain (a b : Rep) : ChainR :=
     | .panic m => .panic m
     | lb =>
     if (match lb with | .fin len1 => decide (len0 + len1 ≥ USIZE) | _ => false) then .err "sequence is too long" else
-    match a, b with
-    | .chain parts0 mids0, .chain parts1 mids1 =>
-        .new (.chain (parts0 ++ parts1) (mids0 ++ [len0] ++ mids1.map (· + len0)))
-    | .chain parts0 mids0, _ => .new (.chain (parts0 ++ [b]) (mids0 ++ [len0]))
-    | _, .chain parts1 mids1 => .new (.chain (a :: parts1) (len0 :: mids1.map (· + len0)))
-    | _, _ => .new (.chain [a, b] [len0])
+    .new (Rep.chainOf a b len0)
 
 /-- `seq.iter(..)` restricted to `count` elements from `start`, collected with
 `collect::<Result<Result<Vec<_>,_>,_>>()` / `try_extend`: the first failing element wins -/
